@@ -88,10 +88,27 @@ class C05(L1Prop):
         ("lib-gcv", "gcv 1 latest:1"),
         ("lib-gs", "gs 1"),
     ]
+    # a stored row that cannot be decoded (payload column NULL) while it is being read: the
+    # failure happens when the row is fetched, not when the statement is prepared
+    ROWKINDS = [
+        ("row-http-gcv", "rowfault latest:1 2", "http GET gcv hyph=anc:1:1 hyph=1 absent e"),
+        ("row-lib-gcv", "rowfault latest:1 2", "gcv 1 anc:1:1"),
+        ("row-http-as", "rowfault latest:1 2", "http POST as hyph=anc:1:2 hyph=1 snapshot b:8,1"),
+        ("row-lib-as", "rowfault latest:1 2", "as 1 anc:1:2 b:8,1"),
+        ("row-lib-gcv-old", "rowfault anc:1:1 2", "gcv 1 anc:1:2"),
+    ]
     def cases(self, rng, tier):
         out = []
         nstates = sizes(tier, 2, 12)
         maxidx = 13
+        for s in range(nstates):
+            seed = rng.getrandbits(32)
+            for (kname, rf, req) in self.ROWKINDS:
+                ops = state_prefix(random.Random(seed), (1, 2))
+                ops += ["dumpall", "dump 9", rf, req, "dumpall", "dump 9",
+                        "http GET gcv hyph=nil hyph=1 absent e", "http POST av hyph=latest:1 hyph=1 history b:77",
+                        "http GET snap - hyph=2 absent e", "dumpall"]
+                out.append(Case(f"c05-{s}-{kname}", ops, {"kind": kname, "plan": rf, "state": s}, mode="http"))
         for s in range(nstates):
             seed = rng.getrandbits(32)
             for (kname, req) in self.KINDS:
